@@ -62,9 +62,9 @@ pub fn esr_mask_contract() {
 pub fn library_errors_have_their_standard_class() {
     macro_rules! chk {
         ($v:ident, $code:expr) => {
-            assert!(ErrorCode::$v.get_code() == $code, concat!("C14/ErrorCode::get_code/", stringify!($v)));
-            assert!(ErrorCode::$v.esr_mask() == spec_class($code), concat!("C14/ErrorCode::esr_mask/", stringify!($v)));
-            assert!(ErrorCode::get_error($code) == Some(ErrorCode::$v), concat!("C14/ErrorCode::get_error/", stringify!($v)));
+            assert!(ErrorCode::$v.get_code() == $code, "C14/ErrorCode::get_code/library-raised-error-has-its-SCPI-99-number");
+            assert!(ErrorCode::$v.esr_mask() == spec_class($code), "C14/ErrorCode::esr_mask/library-raised-error-has-its-class-bit");
+            assert!(ErrorCode::get_error($code) == Some(ErrorCode::$v), "C14/ErrorCode::get_error/number-looks-up-the-same-error");
         };
     }
     chk!(NoError, 0);
